@@ -1,13 +1,14 @@
 SPECIFICATION Spec
 CONSTANTS
   Addrs <- A3
-  Amts <- Amt01
-  Cap = 100
+  Amts <- Amt013
+  Cap = 7
   MaxLen = 3
-  MaxTime = 5
-  RawOps = FALSE
+  MaxTime = 2
+  RawOps = TRUE
   IOAmts <- IO2
-  Genesis <- Gen1
+  Genesis <- Gen2
 VIEW View
 INVARIANTS SupplyEq BalanceWellFormed SupplyWellFormed HolderHasAccount NumsUnique
 PROPERTIES OnlyMintBurnChangeSupply TransferNeutral MintBurnExact FailedChangesNothing AccountsStable
+ACTION_CONSTRAINT EmitEdge
